@@ -205,7 +205,7 @@ class Merger(object):
             # Index of the first channel of this probe in the merged channel arrays.
             self.channel_offsets.append(n_channels)
             n_channels += int(array.size)
-            offset = array.max()
+            offset = int(array.max())
             channel_probes.append(array * 0 + ind)
         channel_maps = _concat(channel_maps_l, axis=0)
         channel_probes = _concat(channel_probes, axis=0)
